@@ -68,7 +68,8 @@ Theorem C01_method_attr_refuted : passes_and_performs w_method (Some [s "y.x"]) 
 Proof. vm_compute. reflexivity. Qed.
 Print Assumptions C01_method_attr_refuted.
 
-(* D03: RandomGeneratorNode resolves numpy.random.<name from the archive> without any audit, with an
+(* D03 (repaired in /repo: only numpy BitGenerator classes may now be CALLED; the harness observes calls): the model still
+   records that RandomGeneratorNode RESOLVES numpy.random.<name from the archive> without any audit, with an
    empty trusted list: here the name \"default_rng\" sits in the bit-generator state *)
 Definition Dn (id : Z) (kv : list (pstr * json)) : json :=
   JObj [(s "__class__", JStr (s "dict")); (s "__module__", JStr (s "builtins")); (s "__loader__", JStr (s "DictNode"));
